@@ -254,6 +254,17 @@ func (e *Engine) toPos(position token.Position) token.Pos {
 			}
 		}
 
+		// The fake-file heuristic in [NewEngine] also matches a real file that has no gaps between
+		// its line starts (e.g., a file that consists of a single line, or of empty lines followed
+		// by a single line). The offset is accurate for such files, which we can tell by checking
+		// that it resolves to the very same line and column.
+		if position.Offset >= 0 && position.Offset <= info.file.Size() {
+			pos := info.file.Pos(position.Offset)
+			if p := info.file.PositionFor(pos, false /* adjusted */); p.Line == position.Line && p.Column == position.Column {
+				return pos
+			}
+		}
+
 		// For fake files, we can only report accurate line number but not column number.
 		return info.file.LineStart(position.Line)
 	}
